@@ -1,0 +1,30 @@
+//go:build verif
+
+package redis
+
+import "net"
+
+// VerifServeConn runs the per-connection loop of Serve on an arbitrary net.Conn, so that the
+// verification harness can feed a connection with exactly chosen read fragments.
+func VerifServeConn(conn net.Conn, handler HandlerFunc) {
+	handleConn(conn, handler)
+}
+
+// VerifOptions flattens the option indexes of a parsed command (name=index for every non-zero one).
+func (c Command) VerifOptions() map[string]int {
+	o := c.Options
+	all := map[string]int{"NX": o.NX, "XX": o.XX, "KEEPTTL": o.KEEPTTL, "GET": o.GET, "LT": o.LT, "GT": o.GT,
+		"CH": o.CH, "INCR": o.INCR, "WITHSCORES": o.WITHSCORES, "EX": o.EX, "PX": o.PX, "EXAT": o.EXAT,
+		"PXAT": o.PXAT, "MATCH": o.MATCH, "COUNT": o.COUNT, "BYLEX": o.BYLEX, "BYSCORE": o.BYSCORE,
+		"LIMIT": o.LIMIT, "BYTE": o.BYTE, "BIT": o.BIT, "NUMKEYS": o.NUMKEYS, "WEIGHTS": o.WEIGHTS,
+		"AGGREGATE": o.AGGREGATE, "REV": o.REV, "TYPE": o.TYPE, "M": o.M, "KM": o.KM, "FT": o.FT, "MI": o.MI,
+		"ASC": o.ASC, "DESC": o.DESC, "ANY": o.ANY, "WITHCOORD": o.WITHCOORD, "WITHDIST": o.WITHDIST,
+		"WITHHASH": o.WITHHASH}
+	out := map[string]int{}
+	for k, v := range all {
+		if v != 0 {
+			out[k] = v
+		}
+	}
+	return out
+}
